@@ -93,13 +93,15 @@ type dgram struct {
 }
 
 type UDPConn struct {
-	laddr  *net.UDPAddr
-	raddr  *net.UDPAddr // connected (DialUDP)
-	group  net.IP
-	q      []dgram
-	closed bool
-	rdl    int64
-	wdl    int64
+	// FaultyReads lets the explorer fail reads of THIS socket (set by the harness on the socket under test).
+	FaultyReads bool
+	laddr       *net.UDPAddr
+	raddr       *net.UDPAddr // connected (DialUDP)
+	group       net.IP
+	q           []dgram
+	closed      bool
+	rdl         int64
+	wdl         int64
 }
 
 func (w *world) port(p int) int {
@@ -193,6 +195,11 @@ func (c *UDPConn) ReadFromUDP(b []byte) (int, *UDPAddr, error) {
 			return 0, nil, closedErr("read", "udp")
 		}
 		return 0, nil, timeoutErr("read", "udp")
+	}
+	if c.FaultyReads && vrt.Fault("udp-read") {
+		// a transient receive error (e.g. ICMP port unreachable surfacing as ECONNREFUSED): the datagram is lost
+		c.q = c.q[1:]
+		return 0, nil, &net.OpError{Op: "read", Net: "udp", Err: fmt.Errorf("connection refused (injected)")}
 	}
 	d := c.q[0]
 	c.q = c.q[1:]
@@ -316,11 +323,21 @@ func (l *TCPListener) Accept() (Conn, error) {
 	if len(l.q) == 0 {
 		return nil, closedErr("accept", "tcp")
 	}
+	if vrt.Fault("tcp-accept") {
+		// e.g. EMFILE / ECONNABORTED: a temporary accept error, the connection stays queued
+		return nil, &tempErr{}
+	}
 	c := l.q[0]
 	l.q = l.q[1:]
 	vrt.Progress()
 	return c, nil
 }
+
+type tempErr struct{}
+
+func (*tempErr) Error() string   { return "accept: too many open files (injected)" }
+func (*tempErr) Timeout() bool   { return false }
+func (*tempErr) Temporary() bool { return true }
 func (l *TCPListener) Close() error {
 	vrt.Op(nil, 0, "Listener.Close")
 	if l.closed {
